@@ -255,6 +255,10 @@ type Machine struct {
 	// ForkTables: a lookup in a constant table with a key known only by name is explored once per entry (the scanner's and
 	// the parser's dispatch tables); off for models that iterate over data (a transliteration loop would multiply)
 	ForkTables bool
+	// ForkIfaceAsserts: a comma-ok assertion to one of the module's own method-bearing interfaces, on a value whose
+	// dynamic type the path does not know, is explored once per module type that can be in the value and implements
+	// the interface (and once for "none of them") — so that the method calls that follow resolve.
+	ForkIfaceAsserts bool
 	// Unroll: how many nested activations of one function are inlined beyond the first (0: recursion is not followed)
 	Unroll    int
 	MaxDepth  int
@@ -666,6 +670,66 @@ func fieldName(t types.Type, idx int) string {
 	return fmt.Sprintf("f%d", idx)
 }
 
+// promotedThrough: is field idx of struct t a struct embedded by value whose fields are thereby fields of t (type S
+// struct { position; … })?  Such a field leaves no trace in the names the analysis gives to places: s.position.current
+// is s.current, as it is in the source.
+func promotedThrough(t types.Type, idx int) bool {
+	if p, ok := t.Underlying().(*types.Pointer); ok {
+		t = p.Elem()
+	}
+	s, ok := t.Underlying().(*types.Struct)
+	if !ok || idx >= s.NumFields() {
+		return false
+	}
+	f := s.Field(idx)
+	if !f.Embedded() {
+		return false
+	}
+	ft, ok := f.Type().(*types.Named)
+	if !ok || ft.Obj().Pkg() == nil || !strings.HasPrefix(ft.Obj().Pkg().Path(), modulePath) {
+		return false
+	}
+	_, isStruct := ft.Underlying().(*types.Struct)
+	return isStruct
+}
+
+// embeddedOwner: a struct type of the module that exists only as the embedded part of one other struct is, for the
+// who-writes and invariant tables, that other struct (lexer.position → lexer.Scanner).
+var embeddedOwner = map[string]string{}
+
+func computeEmbeddedOwners(pkgs []*types.Package) {
+	owners := map[string]map[string]bool{}
+	for _, pk := range pkgs {
+		sc := pk.Scope()
+		for _, name := range sc.Names() {
+			tn, ok := sc.Lookup(name).(*types.TypeName)
+			if !ok {
+				continue
+			}
+			st, ok := tn.Type().Underlying().(*types.Struct)
+			if !ok {
+				continue
+			}
+			for i := 0; i < st.NumFields(); i++ {
+				if promotedThrough(tn.Type(), i) {
+					inner := typeStr(st.Field(i).Type())
+					if owners[inner] == nil {
+						owners[inner] = map[string]bool{}
+					}
+					owners[inner][typeStr(tn.Type())] = true
+				}
+			}
+		}
+	}
+	for inner, os := range owners {
+		if len(os) == 1 {
+			for o := range os {
+				embeddedOwner[inner] = o
+			}
+		}
+	}
+}
+
 const intWindowLo, intWindowHi = -2, 6
 
 func (m *Machine) step(st *State, fr *Frame, in ssa.Instruction) {
@@ -679,6 +743,10 @@ func (m *Machine) step(st *State, fr *Frame, in ssa.Instruction) {
 		m.Model.Instr(m, st, x, nil)
 	case *ssa.FieldAddr:
 		base := ev(x.X)
+		if base.K == KSym && promotedThrough(x.X.Type(), x.Field) {
+			set(x, base) // the embedded part: its fields are named as fields of the whole
+			return
+		}
 		if base.K == KSym {
 			if alias, ok := st.Heap[base.S]; ok && alias.K == KSym {
 				if _, isStruct := derefT(x.X.Type()).Underlying().(*types.Struct); isStruct {
@@ -695,6 +763,10 @@ func (m *Machine) step(st *State, fr *Frame, in ssa.Instruction) {
 		}
 	case *ssa.Field:
 		base := ev(x.X)
+		if base.K == KSym && promotedThrough(x.X.Type(), x.Field) {
+			set(x, base)
+			return
+		}
 		switch base.K {
 		case KSym:
 			loc := base.S + "." + fieldName(x.X.Type(), x.Field)
@@ -814,7 +886,7 @@ func (m *Machine) step(st *State, fr *Frame, in ssa.Instruction) {
 		if a.K == KSym && !isIfaceT(x.X.Type()) {
 			// the dynamic type of the interface value is the static type of what was boxed
 			if _, known := st.Facts["type:"+a.S]; !known {
-				st.Facts["type:"+a.S] = StrV(types.TypeString(x.X.Type(), func(p *types.Package) string { return p.Name() }))
+				st.Facts["type:"+a.S] = StrV(typeString(x.X.Type(), func(p *types.Package) string { return p.Name() }))
 			}
 		}
 		set(x, a)
@@ -831,11 +903,11 @@ func (m *Machine) step(st *State, fr *Frame, in ssa.Instruction) {
 			tb, ok2 := tt.(*types.Basic)
 			if ok1 && ok2 && (fb.Info()&types.IsInteger != 0) && (tb.Info()&types.IsInteger != 0) && stdSizes.Sizeof(tb) < stdSizes.Sizeof(fb) {
 				// a narrowing conversion keeps the low bits only: byte(r) equals r for some runes and not for others
-				set(x, Sym("trunc:"+types.TypeString(x.Type(), nil)+"("+a.String()+")"))
+				set(x, Sym("trunc:"+typeString(x.Type(), nil)+"("+a.String()+")"))
 			} else if ok1 && ok2 && (fb.Info()&types.IsNumeric != 0) && (tb.Info()&types.IsNumeric != 0) && (fb.Info()&types.IsFloat) == (tb.Info()&types.IsFloat) {
 				set(x, a)
 			} else {
-				set(x, Sym("conv:"+types.TypeString(x.Type(), nil)+"("+a.String()+")"))
+				set(x, Sym("conv:"+typeString(x.Type(), nil)+"("+a.String()+")"))
 			}
 		} else {
 			set(x, a)
@@ -856,7 +928,7 @@ func (m *Machine) step(st *State, fr *Frame, in ssa.Instruction) {
 		}
 	case *ssa.TypeAssert:
 		a := ev(x.X)
-		tname := types.TypeString(x.AssertedType, func(p *types.Package) string { return p.Name() })
+		tname := typeString(x.AssertedType, func(p *types.Package) string { return p.Name() })
 		if a.K == KNil {
 			if x.CommaOk {
 				set(x, AV{K: KTuple, T: []AV{zeroAV(x.AssertedType), BoolV(false)}})
@@ -883,6 +955,22 @@ func (m *Machine) step(st *State, fr *Frame, in ssa.Instruction) {
 			} else if ty, known := st.Facts["type:"+a.S]; known {
 				okAV = BoolV(ty.S == tname || (isInterfaceType(x.AssertedType) && implementsByName(m, ty.S, x.AssertedType)))
 			} else if nt, ok := st.Facts["nottype:"+a.S]; ok && strings.Contains(nt.S+"|", "|"+tname+"|") {
+				okAV = BoolV(false)
+			} else if cands := m.ifaceAssertCandidates(x); m.ForkIfaceAsserts && len(cands) > 0 && len(cands) <= 16 {
+				nt := st.Facts["nottype:"+a.S].S
+				excluded := nt
+				for _, c := range cands {
+					excluded += "|" + c
+					if strings.Contains(nt+"|", "|"+c+"|") {
+						continue
+					}
+					ns := st.Clone()
+					ns.Facts["type:"+a.S] = StrV(c)
+					ns.Top().Vals[x] = AV{K: KTuple, T: []AV{a, BoolV(true)}}
+					m.Model.Instr(m, ns, x, []AV{a})
+					m.fork(ns)
+				}
+				st.Facts["nottype:"+a.S] = StrV(excluded)
 				okAV = BoolV(false)
 			} else {
 				okAV = Sym(okName)
@@ -1062,6 +1150,122 @@ func isInterfaceType(t types.Type) bool {
 	return ok
 }
 
+// isStdSliceSearch: the library's linear searches over a slice with a test handed in (slices.ContainsFunc / IndexFunc):
+// their instantiated bodies are a loop over the slice that calls the test — looked into like a helper of the module,
+// since the test is the module's own code and what it does per element is what the rules speak about.
+func isStdSliceSearch(callee *ssa.Function) bool {
+	if callee == nil || callee.Blocks == nil || fnPkgPath(callee) != "slices" {
+		return false
+	}
+	name := callee.Name()
+	if i := strings.Index(name, "["); i >= 0 {
+		name = name[:i]
+	}
+	return name == "ContainsFunc" || name == "IndexFunc"
+}
+
+// baseFnName: the function's name without the type arguments of an instantiation.
+func baseFnName(fn *ssa.Function) string {
+	n := fnName(fn)
+	if i := strings.Index(n, "["); i > 0 {
+		n = n[:i]
+	}
+	return n
+}
+
+// siteOrdinal tells the activations of one helper apart that are entered from different call sites of the same
+// function: "" for the first site in source order, "#2", "#3" … for the others — the values made inside the helper get
+// names of their own per site (two optional clauses parsed by the same helper are two values).
+func siteOrdinal(call ssa.CallInstruction, callee *ssa.Function) string {
+	caller := call.Parent()
+	var sites []ssa.CallInstruction
+	for _, b := range caller.Blocks {
+		for _, in := range b.Instrs {
+			if c, ok := in.(ssa.CallInstruction); ok && c.Common().StaticCallee() == callee {
+				sites = append(sites, c)
+			}
+		}
+	}
+	if len(sites) < 2 {
+		return ""
+	}
+	sort.Slice(sites, func(i, j int) bool { return sites[i].Pos() < sites[j].Pos() })
+	for i, c := range sites {
+		if c == call && i > 0 {
+			return "#" + strconv.Itoa(i+1)
+		}
+	}
+	return ""
+}
+
+// ifaceAssertCandidates: for v.(I) with I a method-bearing interface declared in the module — the printed names of
+// the module's types (T or *T) that implement both I and the static interface type of v.
+func (m *Machine) ifaceAssertCandidates(x *ssa.TypeAssert) []string {
+	it, ok := x.AssertedType.Underlying().(*types.Interface)
+	if !ok || it.NumMethods() == 0 {
+		return nil
+	}
+	if n, ok := x.AssertedType.(*types.Named); !ok || n.Obj().Pkg() == nil || !strings.HasPrefix(n.Obj().Pkg().Path(), modulePath) {
+		return nil
+	}
+	from, _ := x.X.Type().Underlying().(*types.Interface)
+	q := func(p *types.Package) string { return p.Name() }
+	var out []string
+	for _, pk := range m.P.Pkgs {
+		if pk.Types == nil || !strings.HasPrefix(pk.Types.Path(), modulePath) {
+			continue
+		}
+		scope := pk.Types.Scope()
+		for _, n := range scope.Names() {
+			tn, ok := scope.Lookup(n).(*types.TypeName)
+			if !ok || tn.IsAlias() || isInterfaceType(tn.Type()) {
+				continue
+			}
+			for _, t := range []types.Type{tn.Type(), types.NewPointer(tn.Type())} {
+				if types.Implements(t, it) && (from == nil || types.Implements(t, from)) {
+					out = append(out, typeString(t, q))
+					break
+				}
+			}
+		}
+	}
+	sort.Strings(out)
+	return out
+}
+
+// methodByTypeName: the method `name` of the module type printed as tname (T or *T).
+func (m *Machine) methodByTypeName(tname, name string) *ssa.Function {
+	q := func(p *types.Package) string { return p.Name() }
+	for _, pk := range m.P.Pkgs {
+		if pk.Types == nil || !strings.HasPrefix(pk.Types.Path(), modulePath) {
+			continue
+		}
+		scope := pk.Types.Scope()
+		for _, n := range scope.Names() {
+			tn, ok := scope.Lookup(n).(*types.TypeName)
+			if !ok {
+				continue
+			}
+			for _, t := range []types.Type{tn.Type(), types.NewPointer(tn.Type())} {
+				if typeString(t, q) != tname {
+					continue
+				}
+				sel := m.P.SSA.MethodSets.MethodSet(t).Lookup(tn.Pkg(), name)
+				if sel == nil {
+					return nil
+				}
+				fn := m.P.SSA.MethodValue(sel)
+				if fn != nil && fn.Synthetic != "" {
+					// a wrapper (promoted or pointer-receiver wrapper): not followed
+					return nil
+				}
+				return fn
+			}
+		}
+	}
+	return nil
+}
+
 // implementsByName: the dynamic type is known only by its printed name; look it up in the module.
 func implementsByName(m *Machine, tname string, iface types.Type) bool {
 	it, ok := iface.Underlying().(*types.Interface)
@@ -1076,10 +1280,10 @@ func implementsByName(m *Machine, tname string, iface types.Type) bool {
 				continue
 			}
 			q := func(p *types.Package) string { return p.Name() }
-			if types.TypeString(tn.Type(), q) == tname {
+			if typeString(tn.Type(), q) == tname {
 				return types.Implements(tn.Type(), it)
 			}
-			if types.TypeString(types.NewPointer(tn.Type()), q) == tname {
+			if typeString(types.NewPointer(tn.Type()), q) == tname {
 				return types.Implements(types.NewPointer(tn.Type()), it)
 			}
 		}
@@ -1163,6 +1367,15 @@ func (m *Machine) binop(st *State, x *ssa.BinOp, a, b AV) AV {
 	// fresh objects are never nil
 	isObj := func(v AV) bool {
 		return v.K == KSym && strings.HasPrefix(v.S, "obj:") && !strings.ContainsAny(v.S[4:], ".[")
+	}
+	// … nor is a function written out by name (or a closure made on the path)
+	if (a.K == KFunc && a.Fn != nil && b.K == KNil) || (a.K == KNil && b.K == KFunc && b.Fn != nil) {
+		switch op {
+		case token.EQL:
+			return BoolV(false)
+		case token.NEQ:
+			return BoolV(true)
+		}
 	}
 	if (isObj(a) && b.K == KNil) || (a.K == KNil && isObj(b)) {
 		switch op {
@@ -1281,6 +1494,9 @@ func (m *Machine) lowerBound(st *State, v AV) (int64, bool) {
 		}
 		if f, ok := st.Facts["lb:"+v.S]; ok && f.K == KInt {
 			return f.I, true
+		}
+		if strings.HasPrefix(v.S, "rangeidx:") && !strings.ContainsAny(v.S[len("rangeidx:"):], " ()+-") {
+			return 0, true // the index of a range loop (or of a counter that starts at 0 and steps by 1)
 		}
 		if mm := reLenOf.FindStringSubmatch(v.S); mm != nil && balanced(mm[1]) {
 			if f, ok := st.Facts["lenlb:"+mm[1]]; ok && f.K == KInt {
@@ -1421,7 +1637,14 @@ func (m *Machine) doCall(st *State, fr *Frame, call ssa.CallInstruction) bool {
 	args := make([]AV, 0, len(common.Args)+1)
 	var callee *ssa.Function
 	if common.IsInvoke() {
-		args = append(args, m.eval(st, fr, common.Value))
+		recv := m.eval(st, fr, common.Value)
+		args = append(args, recv)
+		// the path knows which type is in the interface value: the call is to that type's method
+		if recv.K == KSym && m.ForkIfaceAsserts {
+			if ty, known := st.Facts["type:"+recv.S]; known {
+				callee = m.methodByTypeName(ty.S, common.Method.Name())
+			}
+		}
 	} else {
 		switch f := common.Value.(type) {
 		case *ssa.Function:
@@ -1524,7 +1747,8 @@ func (m *Machine) doCall(st *State, fr *Frame, call ssa.CallInstruction) bool {
 		m.Model.Instr(m, st, call, args)
 		return true
 	}
-	if outs, handled := m.Model.Call(m, st, call, callee, args); handled {
+	stdSearch := isStdSliceSearch(callee)
+	if outs, handled := m.Model.Call(m, st, call, callee, args); handled && !stdSearch {
 		if len(outs) == 0 {
 			m.Paths++
 			return false // path pruned by the model
@@ -1596,8 +1820,8 @@ func (m *Machine) doCall(st *State, fr *Frame, call ssa.CallInstruction) bool {
 		return true
 	}
 	// default: inline module functions
-	if callee != nil && callee.Blocks != nil && m.P.InModule(callee) && len(st.Frames) < m.MaxDepth && m.Inline(callee) && !m.onStack(st, callee) {
-		nf := &Frame{Fn: callee, Vals: map[ssa.Value]AV{}, Call: call, ID: fr.ID + ">" + fnName(callee)}
+	if callee != nil && callee.Blocks != nil && (stdSearch || m.P.InModule(callee) && m.Inline(callee)) && len(st.Frames) < m.MaxDepth && !m.onStack(st, callee) {
+		nf := &Frame{Fn: callee, Vals: map[ssa.Value]AV{}, Call: call, ID: fr.ID + ">" + baseFnName(callee) + siteOrdinal(call, callee)}
 		for i, p := range callee.Params {
 			if i < len(args) {
 				nf.Vals[p] = args[i]
